@@ -109,3 +109,12 @@ Definition tables_ok : bool :=
   && match client_stream_default with DRefuses => true | _ => false end
   && forallb snd gateway_clients && grpc_server_chained
   && match unrecognised with [] => true | _ => false end.
+
+(* ---------- accounts/basic.go BasicAuth.Validate ---------- *)
+(* hdr = the (user, password) pair a well-formed "Basic ..." authorization header decodes to; None = no header,
+   or one that does not decode. Only a configured account presented with its own password validates. *)
+Definition basic_validate (accounts : list (string * string)) (hdr : option (string * string)) : option string :=
+  match hdr with
+  | Some (u, p) => if existsb (fun c => String.eqb (fst c) u && String.eqb (snd c) p) accounts then Some u else None
+  | None => None
+  end.
